@@ -23,13 +23,14 @@ CFG = dict(
         level_note="Partial by design: atomicity of one badger Set/Delete and of one SQL transaction (ref + reflog), and the durability "
                    "ORDER between the object store and the ref store, are hypotheses (one model write = one atomic, ordered step). "
                    "The theorems are about the hand-written write-list model; they hold under skels_ok (checked by the tie on the "
-                   "regenerated skeletons). REAL operations on the injected recording / fault-injecting stores: prune.Prune, the exported fetch.Fetch "
-                   "(batch fetch-real, against the in-process reference server harness/c09_server.go: crash-from-n and single failing "
-                   "write n on object AND ref writes, then a healthy re-run), ingest.IngestTable / IngestTableFromBlocks, "
-                   "ObjectReceiver.Receive, the merger. STILL RE-ENACTED (unexported functions of cmd/wrgl taking no stores): commit, "
-                   "commitWithTable, runMerge / commitMergeResult / createMergeCommit, and saveFetchedRefs in batch fetch (packfile "
-                   "sequences chosen by the generator incl. hostile ones) - their call sequences are copied, commit time derived from the "
-                   "nonce; their write ORDER is tied by the translator skeletons. The real CLI (wrgl.RootCmd on badger+sqlite) is run "
+                   "regenerated skeletons). REAL operations on the injected recording / fault-injecting stores, each with crash-from-n and a single failing write "
+                   "n at EVERY write position (object and ref writes), judged, re-run healthy and compared with the uninterrupted run: "
+                   "cmd/wrgl commit, commitWithTable, runMerge (through the `verif` export hooks wrgl.VerifCommit / "
+                   "VerifCommitWithTable / VerifRunMerge), ref.DeleteHead, prune.Prune, and the exported fetch.Fetch against the "
+                   "in-process reference server harness/c09_server.go. STILL RE-ENACTED: only batch fetch / fetch-hostile (kind 6), "
+                   "which feeds ObjectReceiver.Receive (real) packfiles whose object ORDER the generator chooses, incl. hostile orders no "
+                   "server sends, followed by a copy of the ref rule of saveFetchedRefs. Commits made by the real commit / merge carry "
+                   "time.Now(); the nonce travels in the commit message. The real CLI (wrgl.RootCmd on badger+sqlite) is run "
                    "un-crashed: three histories compared with the library-level run, and histories with SHALLOW commits (wrgl pull / "
                    "fetch --depth against the reference server, then wrgl merge in default / --no-ff / --ff-only / --ff and wrgl pull "
                    "--depth) judged for the invariants after every command. The real-binary kill hook (VERIF_CRASH_AT) is not used. Re-run of fetch is proved for a run whose object "
